@@ -2,13 +2,14 @@
 """save_seeded.py <prop> <mN> <caught-by> <initially-missed yes/no> : copies a confirmed seeded change into /verif/seeded/"""
 import json, os, shutil, sys
 P, M, caught, missed = sys.argv[1:5]
+DM = sys.argv[5] if len(sys.argv) > 5 else M      # name under /verif/seeded (later batches: m3, m4, ...)
 src = '/tmp/wt_%s/_mutation/%s' % (P, M)
-dst = '/verif/seeded/%s_%s' % (P, M)
+dst = '/verif/seeded/%s_%s' % (P, DM)
 os.makedirs(dst, exist_ok=True)
 for f in ('patch.diff', 'demo.py', 'notes.md'):
     shutil.copy(os.path.join(src, f), os.path.join(dst, f))
 notes = open(os.path.join(src, 'notes.md')).read()
-meta = {'property': P, 'id': '%s_%s' % (P, M), 'needs_to_manifest': notes.strip()[:900],
+meta = {'property': P, 'id': '%s_%s' % (P, DM), 'needs_to_manifest': notes.strip()[:900],
         'confirmed': {'demo_on_original': 'exit 0', 'demo_with_patch': 'non-zero exit', 'test_suite_with_patch': '41 passed',
                       'how': 'tools/../work/run_muts.sh: demo run in a scratch worktree with and without the patch; pytest with the patch; '
                              'then `git -C /repo apply patch.diff`, `check.py <property>`, `git -C /repo checkout -- .`'},
